@@ -95,3 +95,66 @@ class Sim:
 
     def probe(self, name: str, n: int = 1):
         self.probes[name] = self.probes.get(name, 0) + n
+
+
+class Baton:
+    """Deterministic scheduler for real caller threads: exactly one thread runs at a time; at every yield point
+    (a raw socket call) the running thread parks and a seeded PRNG decides who continues.  One seed = one
+    interleaving, exactly repeatable."""
+
+    def __init__(self, rng, max_steps=200000):
+        import threading
+        self.rng = rng
+        self.cv = threading.Condition()
+        self.turn = None
+        self.parked = set()
+        self.done = set()
+        self.ids = {}          # thread ident -> tid
+        self.schedule = []
+        self.max_steps = max_steps
+        self.threading = threading
+
+    def yield_point(self):
+        tid = self.ids.get(self.threading.get_ident())
+        if tid is None:
+            return              # the main thread (set-up, connect) is not scheduled
+        with self.cv:
+            self.parked.add(tid)
+            self.turn = None
+            self.cv.notify_all()
+            while self.turn != tid:
+                self.cv.wait()
+            self.parked.discard(tid)
+
+    def spawn(self, tid, fn):
+        def body():
+            self.ids[self.threading.get_ident()] = tid
+            self.yield_point()          # every thread starts parked
+            try:
+                fn()
+            finally:
+                with self.cv:
+                    self.done.add(tid)
+                    self.turn = None
+                    self.cv.notify_all()
+        t = self.threading.Thread(target=body, daemon=True)
+        t.start()
+        return t
+
+    def run(self, tids):
+        steps = 0
+        with self.cv:
+            while True:
+                while self.turn is not None or any(t not in self.parked and t not in self.done for t in tids):
+                    if not self.cv.wait(timeout=20):
+                        raise HarnessError("thread scheduler: a caller thread neither parked nor finished")
+                live = sorted(t for t in tids if t not in self.done)
+                if not live:
+                    return
+                steps += 1
+                if steps > self.max_steps:
+                    raise HarnessError("thread scheduler: step budget exceeded")
+                pick = self.rng.choice(live)
+                self.schedule.append(pick)
+                self.turn = pick
+                self.cv.notify_all()
